@@ -14,12 +14,27 @@ Inductive node :=
 
 Definition tree := list (str * node).     (* absolute paths, '/' separated *)
 
-(* "a//b" and "a/b" name the same file *)
-Fixpoint squeeze (p : str) : str :=
+(* path normalisation: "a//b" = "a/b", "." components vanish, ".." steps up
+   (no symbolic links among the directories of a tree) *)
+Fixpoint norm_comps (comps : list str) (stack : list str) : list str :=
+  match comps with
+  | [] => rev stack
+  | c :: rest =>
+      match c with
+      | [] => norm_comps rest stack
+      | [46] => norm_comps rest stack
+      | [46; 46] => norm_comps rest (tl stack)
+      | _ => norm_comps rest (c :: stack)
+      end
+  end.
+
+Definition squeeze (p : str) : str :=
   match p with
-  | 47 :: ((47 :: _) as r) => squeeze r
-  | c :: r => c :: squeeze r
-  | [] => []
+  | 47 :: _ => match norm_comps (split_on 47 p) [] with
+               | [] => [47]
+               | cs => concat (map (fun c => 47 :: c) cs)
+               end
+  | _ => p
   end.
 
 Fixpoint tlookup (t : tree) (p : str) : option node :=
